@@ -1945,10 +1945,41 @@ fn lazy_cells(cx: &mut Ctx, thorough: bool) {
             }
         }
     }
+    // queues that are not in age order (the list is a public type and push takes any age; under MultiWriteMultiRead a writer of a
+    // newer version may push before a slower one): a young item in front of old ones, at and beyond the bulk mark 2 x threshold.
+    // Whatever the order, nothing of age >= min_version is handed to the callback and what is freed is the front of the queue.
+    for &th in &[LAZY_NEW, 1, 2, 5, 32, LAZY_UNLIMITED] {
+        let t = if th >= LAZY_DEFAULT { 32 } else { th.max(1) } as u64;
+        for &n in &[2 * t - 1, 2 * t, 2 * t + 6, 4 * t + 3] {
+            for &at in &[0u64, 1, 3, t, n / 2 + 1, n.saturating_sub(2)] {
+                if at >= n { continue; }
+                for &young in &[1000u64, 50, 49] {
+                    let mut script: Vec<(u64, u64)> = (0..n).map(|i| (0, if i == at { young } else { 1 + i / 2 })).collect();
+                    script.push((if at % 2 == 0 { 1 } else { 2 }, 50));
+                    script.push((1, 50));
+                    script.extend((0..3).map(|j| (0, 40 + 20 * j)));
+                    script.push((2, 51));
+                    script.push((1, 1001));
+                    lazy_case(cx, th, &script);
+                    cx.sum.dist("lazy_scripts_not_in_age_order");
+                }
+            }
+        }
+    }
     let nr = if thorough { 3000 } else { 300 };
-    for _ in 0..nr {
+    for k in 0..nr {
         let mut r = Rng::new(cx.rng.next());
         let th = *r.pick(&[LAZY_NEW, 0, 1, 3, 8, 32, LAZY_DEFAULT, LAZY_UNLIMITED, 64]);
+        if k % 5 == 4 {
+            // random ages in any order
+            let mut script = vec![];
+            for _ in 0..r.range(1, 160) {
+                if r.chance(7, 8) { script.push((0, r.below(60))); } else { script.push((*r.pick(&[1u64, 1, 2, 3]), r.below(64))); }
+            }
+            lazy_case(cx, th, &script);
+            cx.sum.dist("lazy_scripts_not_in_age_order");
+            continue;
+        }
         let mut age = r.below(5);
         let mut script = vec![];
         for _ in 0..r.range(1, 120) {
